@@ -120,6 +120,7 @@ def strategy_(draw, tier):
     spec["requests"] = draw(strat.requests(spec["size"], bs, count=6, points=pts, whole_limit=4 << 20))
     spec["via_minimal"] = draw(strat.minimal_handle())
     spec["fault"] = draw(strat.fault())
+    spec["flavours"] = draw(st.booleans())
     spec["creator"] = draw(st.sampled_from([None, None, None, None, "full", "cut-surrogate", "lone-surrogate", "bytes"]))
     ss = spec["sector_size"]
     spec["sector_requests"] = [[o // ss, max(1, min(n, 1 << 20) // ss)] for o, n in spec["requests"][:2]]
